@@ -198,7 +198,7 @@ func vfC12fec(c *hx.Ctx) {
 		return
 	}
 	start := time.Now()
-	u := &hx.Unit{Name: "fec-wrap", Kind: "enum", Exhaustive: true, Params: map[string]any{"ratios": "1/1 2/1 3/2 4/2 10/3 12/3", "encoder_start": "0..4 groups before the wrap value", "idle_gap": "none, or >rto before every data packet position of 6 groups"}}
+	u := &hx.Unit{Name: "fec-wrap", Kind: "enum", Exhaustive: true, Params: map[string]any{"ratios": "1/1 2/1 3/2 4/2 10/3 12/3", "encoder_start": "0..4 groups before the wrap value", "idle_gap": "none, or >rto before every data packet position of 6 groups", "receiver": "same ratio and tracking the stream; or configured 10/3, 3/2, 1/1, 128/127, 2/1 and auto-tuned during a loss-free warm-up"}}
 	viol := func(sig, msg string) {
 		for _, v := range u.Violations {
 			if v.Signature == sig {
@@ -280,6 +280,60 @@ func vfC12fec(c *hx.Ctx) {
 					if dec.shouldTune {
 						viol("C12:fec-wrap-triggers-tuning", fmt.Sprintf("%s: genuine packets around the wrap made the decoder suspend decoding", where))
 						dec.shouldTune = false
+					}
+				}
+			}
+		}
+	}
+	// a receiver that was configured with another ratio and adopted the sender's by auto-tuning before the ids wrap: its
+	// own wrap value and window reference must be those of the adopted ratio
+	for _, dp := range [][2]int{{2, 1}, {3, 2}, {4, 2}, {10, 3}} {
+		d, p := dp[0], dp[1]
+		size := uint32(d + p)
+		paws := uint32(0xffffffff) / size * size
+		for _, rdp := range [][2]int{{10, 3}, {3, 2}, {1, 1}, {128, 127}, {2, 1}} {
+			if rdp == dp {
+				continue
+			}
+			warm := uint32(258+2*int(size))/size + 3 // groups fed without loss: enough for the decoder to adopt the sender's ratio
+			const ngroups = 6
+			for back := uint32(0); back <= 4; back++ {
+				u.Executions++
+				u.NonTrivial++
+				vrt.SetSeqNow(0)
+				enc := newFECEncoder(d, p, 0)
+				enc.next = (paws - (back+warm)*size) % paws
+				enc.tsLatestPacket = vrt.Now().UnixMilli()
+				dec := newFECDecoder(rdp[0], rdp[1])
+				where := fmt.Sprintf("sender %d/%d, receiver configured %d/%d and auto-tuned, encoder %d groups before the wrap after the warm-up", d, p, rdp[0], rdp[1], back)
+				var lastID uint32
+				for j := 0; j < int(warm+ngroups)*d; j++ {
+					vrt.Advance(time.Millisecond)
+					b := make([]byte, fecHeaderSizePlus2+20, 1500)
+					for k := 0; k < 20; k++ {
+						b[fecHeaderSizePlus2+k] = byte(j + k + 1)
+					}
+					ps := enc.encode(b, maxFECEncodeLatency)
+					measured := j >= int(warm)*d
+					if j == int(warm)*d && (dec.dataShards != d || dec.parityShards != p) {
+						break // no convergence within the warm-up: C16's subject, nothing to measure here
+					}
+					lost := measured && j%d == 0
+					if !lost {
+						for _, r := range dec.decode(fecPacket(b)) {
+							defaultBufferPool.Put(r)
+						}
+					}
+					recovered := 0
+					for _, x := range ps {
+						lastID = fecPacket(x).seqid()
+						for _, r := range dec.decode(fecPacket(append([]byte(nil), x...))) {
+							recovered++
+							defaultBufferPool.Put(r)
+						}
+					}
+					if measured && len(ps) > 0 && d > 1 && recovered != 1 {
+						viol("C12:fec-no-recovery-around-wrap:receiver-auto-tuned", fmt.Sprintf("%s: the group ending at id %d lost its first data packet, parity arrived, %d packets were recovered", where, lastID, recovered))
 					}
 				}
 			}
